@@ -415,3 +415,7 @@ def check(run, prog, tier):
                "longjmp at line %s hands the error to a recovery point that may keep its context, with the limit flags still set: the next catch() of an ordinary error is refused" % n.get("l"), eh.file, n.get("l"), "error_handler",
                what="error_handler leaves the eval-cost/call-depth flags set after delivering an uncaught error")
         ordh += 1
+
+    # ---- C05-i efun stack discipline
+    import rules.C05i as c05i
+    c05i.check(run, prog, tier, cg)
